@@ -124,7 +124,45 @@ func checkC12(P *Prog, r *Result) {
 	r.floor("C12/callback-arg", 8)
 
 	// ---- primitive-testfunc-gets-value ----
-	wrapper := P.fn("zog.customTestBackwardsCompatWrapper")
+	// the backwards-compatibility wrapper: the function some kind's Test method (or an unexported
+	// helper it calls) applies to the user's Func before storing it back (found by that shape, not by name)
+	var wrapper *ssa.Function
+	var withHelpers func(fn *ssa.Function, d int, f func(*ssa.Function))
+	withHelpers = func(fn *ssa.Function, d int, f func(*ssa.Function)) {
+		f(fn)
+		if d >= 2 {
+			return
+		}
+		eachInstr(fn, func(_ *ssa.BasicBlock, _ int, in ssa.Instruction) {
+			if ci := callOf(in); ci != nil && ci.static != nil && formulaHelper(ci.static) && ci.static != fn {
+				withHelpers(ci.static, d+1, f)
+			}
+		})
+	}
+	for _, tm := range P.Funcs {
+		if tm.Name() != "Test" || tm.Parent() != nil || tm.Signature.Recv() == nil || !R.isKind(tm.Signature.Recv().Type()) {
+			continue
+		}
+		ff := structField(R.Test, "Func")
+		withHelpers(tm, 0, func(fn *ssa.Function) {
+			eachInstr(fn, func(_ *ssa.BasicBlock, _ int, in ssa.Instruction) {
+				st, ok := in.(*ssa.Store)
+				if !ok {
+					return
+				}
+				if _, f := fieldVar(st.Addr); f == nil || !sameField(f, ff) {
+					return
+				}
+				if c, ok := st.Val.(*ssa.Call); ok && callOf(c).static != nil && len(c.Call.Args) > 0 && inModule(funcPkgPath(callOf(c).static)) {
+					if _, f2 := loadOfField(cv(c.Call.Args[0])); f2 != nil && sameField(f2, ff) {
+						if wrapper == nil || wrapper == callOf(c).static {
+							wrapper = callOf(c).static
+						}
+					}
+				}
+			})
+		})
+	}
 	for _, k := range R.Kinds {
 		kn := k.Obj().Name()
 		var testM *ssa.Function
@@ -151,20 +189,22 @@ func checkC12(P *Prog, r *Result) {
 		}
 		wraps := false
 		funcF := structField(R.Test, "Func")
-		eachInstr(testM, func(_ *ssa.BasicBlock, _ int, in ssa.Instruction) {
-			st, ok := in.(*ssa.Store)
-			if !ok {
-				return
-			}
-			_, f := fieldVar(st.Addr)
-			if f == nil || !sameField(f, funcF) {
-				return
-			}
-			if c, ok := st.Val.(*ssa.Call); ok && wrapper != nil && callOf(c).static == wrapper {
-				if _, f2 := loadOfField(cv(c.Call.Args[0])); f2 != nil && sameField(f2, funcF) {
-					wraps = true
+		withHelpers(testM, 0, func(hf *ssa.Function) {
+			eachInstr(hf, func(_ *ssa.BasicBlock, _ int, in ssa.Instruction) {
+				st, ok := in.(*ssa.Store)
+				if !ok {
+					return
 				}
-			}
+				_, f := fieldVar(st.Addr)
+				if f == nil || !sameField(f, funcF) {
+					return
+				}
+				if c, ok := st.Val.(*ssa.Call); ok && wrapper != nil && callOf(c).static == wrapper {
+					if _, f2 := loadOfField(cv(c.Call.Args[0])); f2 != nil && sameField(f2, funcF) {
+						wraps = true
+					}
+				}
+			})
 		})
 		c := kn + ".Test"
 		switch {
@@ -249,15 +289,20 @@ func checkC12(P *Prog, r *Result) {
 		} else {
 			pu := ptUnits[0]
 			cl := pu.fn
-			// the runner is deferred exactly once by the node function, in its entry block
+			// the runner — or the closure/helper through which it runs — is deferred exactly once by the
+			// node function itself, in its entry block
+			top := pu
+			for top.parent != nil && top.parent.fn != nf {
+				top = top.parent
+			}
 			nDefer := 0
 			eachInstr(nf, func(b *ssa.BasicBlock, _ int, in ssa.Instruction) {
 				if df, ok := in.(*ssa.Defer); ok {
 					isRunner := false
-					if mc, ok := df.Call.Value.(*ssa.MakeClosure); ok && mc.Fn == cl {
+					if mc, ok := df.Call.Value.(*ssa.MakeClosure); ok && mc.Fn == top.fn {
 						isRunner = true
 					}
-					if ci := callOf(df); ci != nil && ci.static == cl {
+					if ci := callOf(df); ci != nil && ci.static == top.fn {
 						isRunner = true
 					}
 					if isRunner {
@@ -268,8 +313,15 @@ func checkC12(P *Prog, r *Result) {
 					}
 				}
 			})
-			if nDefer != 1 || !pu.deferred || pu.parent == nil || pu.parent.fn != nf {
+			if nDefer != 1 || !top.deferred || top.parent == nil || top.parent.fn != nf {
 				problems = append(problems, fmt.Sprintf("%d defers of the post-transform runner by the node function (expected 1)", nDefer))
+			}
+			// between the deferred unit and the runner nothing may be conditional: the runner is called
+			// unconditionally (its own gate is HasErrored)
+			for u := pu; u != top && u != nil; u = u.parent {
+				if in, ok := u.site.(ssa.Instruction); ok && in.Block() != in.Parent().Blocks[0] {
+					problems = append(problems, "the post-transform runner is called conditionally inside the deferred function")
+				}
 			}
 			pu.with(func() {
 				problems = append(problems, P.ptClosureProblems(cl)...)
@@ -362,6 +414,20 @@ func checkC12(P *Prog, r *Result) {
 		}
 	}
 	r.floor("C12/preprocess-skip", 2)
+
+	// ---- ctx-values-per-call: ctx.Get sees exactly this call's values. The execution context is pooled:
+	// every field of it (the values map included) is overwritten at acquisition (C07's reinit rule,
+	// restricted to ExecCtx) ----
+	tmp := NewResult(r.Prop, r.Tier)
+	checkC07(P, tmp)
+	for _, o := range tmp.Obls {
+		if o.Rule == "C07/reinit" && strings.Contains(o.Construct, "#zog/internals.ExecCtx.") {
+			o.Rule = "C12/ctx-values-per-call"
+			r.Obls = append(r.Obls, o)
+			r.Instances[o.Rule]++
+		}
+	}
+	r.floor("C12/ctx-values-per-call", 2)
 }
 
 // errResultGuardsIssue: the error result (last extract) of call c is compared
